@@ -68,8 +68,14 @@ def eval_digest(size, algo, k, short):
     tmp = tempfile.mkdtemp(prefix="c16-")
     try:
         path = os.path.join(tmp, "f")
+        # the SAME path held other content of the same size (and the same mtime) a moment ago and was hashed then
+        with open(path, "wb") as f:
+            f.write(bytes((b + 1) % 256 for b in data[:4096]) + data[4096:])
+        st = os.stat(path)
+        call(pt.compute_checksum, path, algo)
         with open(path, "wb") as f:
             f.write(data)
+        os.utime(path, ns=(st.st_atime_ns, st.st_mtime_ns))
         with open(os.path.join(tmp, "warmup"), "wb") as f:
             f.write(b"some other file")
         call(pt.compute_checksum, os.path.join(tmp, "warmup"), algo)
